@@ -5,6 +5,14 @@ PY_SUBSET = ('Python semantics of the executed subset as encoded by pyvc.symexec
              'sequences as len/at theories, path-by-path execution, loops cut at invariants)')
 
 PROPS = {
+    'C11': {
+        'level': 'other',
+        'proof': [('contracts.rvs', None)],
+        'assumptions': [PY_SUBSET, FLOAT_AS_REAL],
+        'explanation': 'the overall covariance matrix is proved to be the block-diagonal composition of the '
+                       'distributions (names concatenated in the same order) for all collections; join/unjoin/'
+                       'indexing, the positive-semidefinite repair and the scale conversions are bounded checks',
+    },
     'C17': {
         'level': 'proof',
         'proof': [('contracts.workflow', None)],
